@@ -51,6 +51,14 @@ def spelling_pairs(rng, rec, a, b):
         x = rec.do("compare", [a, b], op=op, spelling=s1, prop="C08")
         y = rec.do("compare", [a, b], op=op, spelling=s2, prop="C08")
     elif c < 0.8:
+        if rng.random() < 0.3:
+            # whole-array extrema in two spellings, with and without keepdims (seed C08f: the method dropped keepdims)
+            fn = rng.choice(["amax", "amin"])
+            kd = rng.random() < 0.6
+            s1, s2 = rng.sample(["numpoly", "numpy", "method"], 2)
+            for sp in (s1, s2):
+                rec.do("lead", [a], keep=False, fn=fn, spelling=sp, graded=False, reverse=False, keepdims=kd, prop="C08")
+            return
         fn = rng.choice(["sum", "prod", "cumsum", "mean"])
         nd = rec.obj(a).ndim
         if nd == 0:
